@@ -14,6 +14,8 @@ Ltac ps_d0_step :=
   | |- ps_disc0 (PsDo _ _) => apply PsDisc0Do; [reflexivity | intro]
   | |- ps_disc0 (match ?x with _ => _ end) => destruct x
   | |- ps_disc0 (if ?x then _ else _) => destruct x
+  | |- ps_disc0 ((if ?x then _ else _) _) => destruct x
+  | |- ps_disc0 ((match ?x with _ => _ end) _) => destruct x
   end.
 Ltac ps_d0 := repeat ps_d0_step.
 
